@@ -661,7 +661,10 @@ class ndarray:
             raise ModelGap("transpose of ndim>2")
         n, m = self.shape
         idx = [self.idx[i * m + j] for j in range(m) for i in range(n)]
-        return ndarray(self.buf, idx, (m, n), self._dt, self.uw)
+        out = ndarray(self.buf, idx, (m, n), self._dt, self.uw)
+        # the transpose is a view of the same memory: its memory order is the other one ("K" / "A" orders can see that)
+        out._memF = not getattr(self, "_memF", False)
+        return out
 
     def transpose(self):
         return self.T
@@ -678,11 +681,28 @@ class ndarray:
             raise ValueError("cannot reshape array of size %d into shape %s" % (self.size, tuple(shape)))
         return ndarray(self.buf, self.idx, tuple(shape), self._dt, self.uw)
 
-    def flatten(self):
-        return ndarray.fresh(self.flat, (self.size,), self._dt)
+    def _in_order(self, order):
+        if order in (None, "C") or self.ndim < 2:
+            return None
+        if order not in ("F", "K", "A"):
+            raise ValueError("order must be one of 'C', 'F', 'A', or 'K'")
+        if self.ndim != 2:
+            raise ModelGap("ravel / flatten order=%r of ndim>2" % (order,))
+        if order != "F" and not getattr(self, "_memF", False):
+            return None
+        n, m = self.shape
+        flat = self.flat
+        return [flat[i * m + j] for j in builtins_range(m) for i in builtins_range(n)]
 
-    def ravel(self):
-        return self.reshape(-1)
+    def flatten(self, order="C"):
+        vals = self._in_order(order)
+        return ndarray.fresh(self.flat if vals is None else vals, (self.size,), self._dt)
+
+    def ravel(self, order="C"):
+        vals = self._in_order(order)
+        if vals is None:
+            return self.reshape(-1)
+        return ndarray.fresh(vals, (self.size,), self._dt)
 
     def sum(self, axis=None, **kw): return sum_(self, axis, **kw)
     def mean(self, axis=None, **kw): return mean(self, axis, **kw)
@@ -695,7 +715,7 @@ class ndarray:
     def cumsum(self, axis=None): return cumsum(self, axis)
     def prod(self, axis=None): return prod(self, axis)
     def nonzero(self): return nonzero(self)
-    def argsort(self): return argsort(self)
+    def argsort(self, axis=-1, kind=None, order=None): return argsort(self, axis=axis, kind=kind, order=order)
     def round(self, decimals=0): raise ModelGap("ndarray.round")
     def squeeze(self): return self.reshape(tuple(d for d in self.shape if d != 1))
     def fill(self, v): self[...] = v
@@ -995,8 +1015,31 @@ def ones(shape, dtype=float):
     return ndarray.fresh([_ONE[dt]] * prod_(shape), shape, dt)
 
 
+_EMPTY_CALLS = [0]
+
+
 def empty(shape, dtype=float):
+    """uninitialised memory: every cell holds an arbitrary value.  On the solver paths a fresh unknown per cell, with
+    concrete values a garbage pattern that changes from call to call (never the zeros a fresh heap page happens to hold)."""
+    shape = _shape(shape)
+    dt = _dt(dtype)
+    n = prod_(shape)
+    _EMPTY_CALLS[0] += 1
+    k = _EMPTY_CALLS[0]
+    if dt in ("f8", "f4"):
+        if E.CUR is not None:
+            return ndarray.fresh([E.CUR.fresh_real("uninit") for _ in builtins_range(n)], shape, dt)
+        return ndarray.fresh([((i * 7919 + k * 104729) % 1009) / 100.0 for i in builtins_range(n)], shape, dt)
+    if dt == "i8":
+        if E.CUR is not None:
+            return ndarray.fresh([E.CUR.fresh_int("uninit") for _ in builtins_range(n)], shape, dt)
+        return ndarray.fresh([1000003 * k + i for i in builtins_range(n)], shape, dt)
     return zeros(shape, dtype)
+
+
+def empty_like(a, dtype=None):
+    a = asarray(a)
+    return empty(a.shape, dtype if dtype is not None else a.dtype)
 
 
 def full(shape, v, dtype=None):
@@ -1607,8 +1650,10 @@ def sort(a, axis=-1):
     raise ModelGap("sort of ndim>2")
 
 
-def argsort(a):
+def argsort(a, axis=-1, kind=None, order=None):
     a = _as(a)
+    if order is not None or kind not in (None, "quicksort", "stable", "mergesort", "heapsort"):
+        raise ModelGap("argsort kind=%r order=%r" % (kind, order))
     if a.ndim != 1:
         raise ModelGap("argsort ndim>1")
     order = _sort_positions(a.flat, _lt)
